@@ -19,6 +19,7 @@ import PoetryVerif.Proofs.ParserTotalVC3
 import PoetryVerif.Proofs.ParserTotalSimp
 import PoetryVerif.Proofs.ParserTotalSimp2
 import PoetryVerif.Proofs.ParserTotalConv
+import PoetryVerif.Proofs.ParserTotalLex
 
 /-! # Part I — versions, string constraints, markers -/
 /-!
@@ -1650,5 +1651,175 @@ theorem dep_parse_top_err_documented (s : String) (e : PyErr) (h : createFromPep
 
 def dep_parse_top_err_documented_full_statement : Prop :=
   ∀ s e, createFromPep508Top s = .error e → e = .value
+
+end Poetry.C19
+
+/-! # Part XIII — lark's error outside the input: printed marker texts that are parsed again -/
+/-!
+C19, Part XIII — lark's error (`.syntax`) outside the input text: when can `SingleMarker.__str__` be read back
+by the marker grammar, and what follows for `invert` and for the re-parsing steps of the simplifier.
+Property theorems only (helper lemmas: Proofs/ParserTotalLex.lean).  Fragment to be appended to Props/C19.lean
+(the `import` of Props/C19 below only serves the stand-alone build).
+
+FINDING (real code, replayed; the model agrees — counterexample theorems below): `invert()` and
+`parse_marker(str(m))` raise lark's `UnexpectedCharacters` for accepted markers whose value
+ * ends in an odd number of backslashes and holds no double quote: `parse_marker("os_name == 'a\\'")` (value
+   `a\`) prints `os_name == "a\"` — the backslash escapes the closing quote;
+ * holds both quote characters: `parse_marker('os_name == "a\\"\'b"')` (value `a\"'b`) prints
+   `os_name == 'a\"'b'`.
+So lexability is a genuine hypothesis.  Proved here: the grammar reads back `leafText` for a grammar name, a grammar
+operator and a LEXABLE value (`LexVal`: no `"`, `\`, newline — or a `"` and no `'`); `invert` never raises lark's
+error on markers whose single leaves are lexable (operators other than `~=`); every leaf `_compact_markers` builds
+from a LEXABLE INPUT tree (`SynLexIn`: items `name op "value"`, operator not `~=`, value without backslash/newline
+and not holding both quote characters) is lexable; for the simplifier the statement is reduced to ONE named
+hypothesis on the leaf merge (`MergeNoSyntax`).
+NOT reached (named missing lemmas): (a) `MergeNoSyntax (LeafOK GoodVC)` restricted to lexable leaves — needs (a1)
+"every `Version.text` inside a leaf constraint is free of quotes/backslash/newline" as an invariant of the
+version-constraint algebra (for the candidate text `python_version == "<min.text>"` and for `~=` inversion), (a2)
+the same for the values of string-constraint atoms (`mkSingleOfC` prints `str(constraint)`), (a3) the rewritten
+`python_full_version` text of `_merge_python_version_single_markers` parses (only proved for release literals in
+Proofs/PyConvPairRewrite.lean); (b) swapped items `"value" op name` and `~=` in `SynLexIn` (needs: the operator
+group of `STR_CMP_CONSTRAINT` is never `~=`; the value group is a prefix of the value).
+-/
+set_option linter.unusedSimpArgs false
+set_option linter.unusedVariables false
+
+namespace Poetry.C19
+open Poetry Marker ParserTotal
+
+/-! # Part XIII — lark's error outside the input text -/
+
+/-! ## what is FALSE -/
+
+/-- the full statement: `invert` of a marker built from an accepted text never raises lark's error.  FALSE. -/
+def invert_no_syntax_full_statement : Prop :=
+  ∀ (name cstr : String) (s : Single) (e : PyErr), mkSingle name cstr false = .ok s →
+    Leaf.invert (.single s) = .error e → e ≠ .syntax
+
+/-- **Counterexample (real).** `parse_marker("os_name == 'a\\'").invert()` raises `UnexpectedCharacters`: the
+value `a\` is printed as `"a\"`. -/
+theorem invert_syntax_counterexample_backslash :
+    ∃ s, mkSingle "os_name" "==a\\" false = .ok s ∧ Leaf.invert (.single s) = .error .syntax :=
+  ⟨_, rfl, eq_error_of_isErrB _ _ (by decide +kernel)⟩
+
+/-- **Counterexample (real).** `parse_marker('os_name == "a\\"\'b"').invert()`: the value `a\"'b` holds both quote
+characters. -/
+theorem invert_syntax_counterexample_both_quotes :
+    ∃ s, mkSingle "os_name" "==a\\\"'b" false = .ok s ∧ Leaf.invert (.single s) = .error .syntax :=
+  ⟨_, rfl, eq_error_of_isErrB _ _ (by decide +kernel)⟩
+
+theorem invert_no_syntax_counterexample : ¬ invert_no_syntax_full_statement := by
+  intro h
+  obtain ⟨s, h1, h2⟩ := invert_syntax_counterexample_backslash
+  exact h _ _ s _ h1 h2 rfl
+
+/-- the same texts are accepted by the grammar, and what `str()` prints for them is not: -/
+example : parseText "os_name == 'a\\'" = .ok (.one (.item "os_name" "==" "a\\" false)) ∧
+    parseText (leafText "os_name" "==" "a\\" false) = .error .syntax := by
+  constructor <;> decide +kernel
+example : parseText "os_name == \"a\\\"'b\"" = .ok (.one (.item "os_name" "==" "a\\\"'b" false)) ∧
+    parseText (leafText "os_name" "==" "a\\\"'b" false) = .error .syntax := by
+  constructor <;> decide +kernel
+
+/-! ## what holds -/
+
+/-- **L1. The grammar reads back what `SingleMarker.__str__` prints** for a grammar name, a grammar operator and a
+lexable value — both quoting styles of repo fix 3046ca3. -/
+theorem lexable_leaf_text_reparses (n op v : String) (sw : Bool) (hn : n ∈ names) (ho : op ∈ ops)
+    (hv : LexVal v) : parseText (leafText n op v sw) = .ok (.one (.item n op v sw)) :=
+  parseText_leafText n op v sw hn ho hv
+
+example : LexVal "a\"b" ∧ LexVal "nt" ∧ LexVal "it's" :=
+  ⟨.inr ⟨by decide, by unfold SqOk; decide⟩, .inl (by unfold ValOk; decide), .inl (by unfold ValOk; decide)⟩
+
+/-- **L2. `invert` does not raise lark's error** on a marker whose `SingleMarker` leaves have a grammar name, a
+lexable value and an operator other than `~=` (atomic multi/union markers never re-parse). -/
+theorem invert_no_syntax (m : M) (hm : M.Good LexLeaf m) (e : PyErr) (h : m.invert = .error e) :
+    e ≠ .syntax := ParserTotal.invert_no_syntax vc_err_documented m hm e h
+
+/-- the errors `SingleMarker.invert` does have on such a leaf -/
+theorem invert_single_err_classified (s : Single) (hn : s.name ∈ names) (hv : LexVal s.value) (e : PyErr)
+    (h : invertSimple s = .error e) : e = .runtime ∨ e = .value ∨ e = .unmodelled :=
+  invertSimple_err vc_err_documented s hn hv e h
+
+/-- **L3. Leaves built from a lexable input are lexable.** -/
+theorem compact_leaves_lexable (syn : Syn) (subs : List M) (hl : SynLexIn syn)
+    (h : compactSubMarkers syn = .ok subs) : ∀ m ∈ subs, M.Good LexLeaf m :=
+  compactSubMarkers_lex syn subs hl h
+
+/-- **L2+L3. For a lexable input, `invert` of the (un-simplified) marker does not raise lark's error.** -/
+theorem invert_no_syntax_of_input (syn : Syn) (m : M) (hl : SynLexIn syn) (hc : compactRaw syn = .ok m)
+    (e : PyErr) (h : m.invert = .error e) : e ≠ .syntax :=
+  invert_no_syntax m (compactRaw_lex syn m hl hc) e h
+
+/-- Regression (repo fix 3046ca3): `os_name == 'a"b'` — a value holding a double quote.  The input is lexable, the
+leaf is built, it is lexable, and its inversion succeeds (it raised `UnexpectedCharacters` before the fix). -/
+example : SynLexIn (.one (.item "os_name" "==" "a\"b" false)) ∧
+    ∃ s, mkSingle "os_name" (itemConstraintString "==" "a\"b" false) false = .ok s ∧ LexLeaf (.single s) ∧
+      ∃ r, Leaf.invert (.single s) = .ok r := by
+  have hl : SynLexIn (.one (.item "os_name" "==" "a\"b" false)) :=
+    ⟨by decide, by decide, by decide, rfl, by decide, .inr (by decide)⟩
+  refine ⟨hl, _, rfl, ?_, exists_ok_of_isOkB _ (by decide +kernel)⟩
+  exact mkSingle_lexLeaf "os_name" "==" "a\"b" (by decide) (by decide) (by decide) hl.2.2.2.2 _ rfl
+
+/-! ## the simplifier -/
+
+/-- the full statement for the simplifier on lexable, invariant operands.  NOT proved: see (a1)–(a3) in the header. -/
+def simplifier_no_syntax_full_statement : Prop :=
+  MergeNoSyntax (fun l => LeafOK GoodVC l ∧ LexLeaf l)
+
+/-- **S (partial).** Named hypothesis `hM : MergeNoSyntax G` — on leaves satisfying `G` the leaf merge returns
+`G`-markers and fails with fuel / `ValueError` / `.unmodelled` only.  Then every function of the block preserves
+`G` and fails with fuel, `RecursionError`, `ValueError` or `.unmodelled` only: no lark error from the simplifier. -/
+theorem simplifier_no_syntax_partial (G : Leaf → Prop) (hM : MergeNoSyntax G) (fuel : Nat) (stk : Stack)
+    (ms : List M) (hg : ∀ m ∈ ms, M.Good G m) (e : PyErr) (h : unionF fuel stk ms = .error e) :
+    e = .fuel ∨ e = .recursion ∨ e = .value ∨ e = .unmodelled :=
+  unionF_no_syntax_of hM fuel stk ms hg e h
+
+theorem simplifier_block_no_syntax_partial (G : Leaf → Prop) (hM : MergeNoSyntax G) (n : Nat) :
+    InvAt G MErr' n := simplifier_no_syntax_of hM n
+
+/-- with Part X, the hypothesis reduces to: the merge of two invariant leaves is not lark's error -/
+theorem merge_no_syntax_of_ne
+    (hne : ∀ l1 l2 b, LeafOK GoodVC l1 → LeafOK GoodVC l2 → mergeLeaves l1 l2 b ≠ .error .syntax) :
+    MergeNoSyntax (LeafOK GoodVC) := mergeNoSyntax_of_ne vc_err_documented vcOpsTotal_good hne
+
+/-- **`parse_marker(text)`, public function (partial): lark's error is the grammar's error on the INPUT** — if the
+text is accepted by the grammar, the remaining errors are `ValueError`, `.unmodelled`, fuel. -/
+theorem parse_marker_top_syntax_is_input_partial (hM : MergeNoSyntax (LeafOK GoodVC)) (s : String) (syn : Syn)
+    (hp : parseText s = .ok syn) (e : PyErr) (h : parseMarkerTop s = .error e) :
+    e = .value ∨ e = .unmodelled ∨ e = .fuel := by
+  rcases parseMarkerTop_err s e h with ⟨hp', hne⟩ | ⟨_, hv⟩
+  · rcases parseMarker_no_syntax_of vc_err_documented vcOpsTotal_good hM s syn hp e hp' with h | h | h | h
+    · exact .inr (.inr h)
+    · exact absurd h hne
+    · exact .inl h
+    · exact .inr (.inl h)
+  · exact .inl hv
+
+/-- the same as a statement about `.syntax`: under the hypothesis, `parse_marker` raises lark's error only when
+the grammar rejects the input -/
+theorem parse_marker_top_syntax_is_input (hM : MergeNoSyntax (LeafOK GoodVC)) (s : String)
+    (h : parseMarkerTop s = .error .syntax) : parseText s = .error .syntax := by
+  cases hp : parseText s with
+  | error e => rw [marker_parse_err_documented s e hp]
+  | ok syn =>
+    rcases parse_marker_top_syntax_is_input_partial hM s syn hp _ h with h | h | h <;> cases h
+
+/-- **`Requirement(text)`, public constructor (partial)**: the requirement grammar's own errors are `ValueError`, so
+under the hypothesis no lark error is left at all. -/
+theorem req_parse_top_no_syntax_partial (hM : MergeNoSyntax (LeafOK GoodVC)) (s : String) (e : PyErr)
+    (h : Req.parseTop s = .error e) : e = .value ∨ e = .unmodelled ∨ e = .fuel := by
+  rcases Req.guardRecursion_err _ e h with ⟨hp, hne⟩ | ⟨_, hv⟩
+  · rcases req_parse_err_decomposed s e hp with h | h | ⟨raw, _, h⟩ | ⟨raw, syn, _, _, h⟩
+    · exact .inl h
+    · exact .inr (.inl h)
+    · exact .inl (vc_parse_err_documented _ false e h)
+    · rcases compactTop_no_syntax_of vc_err_documented vcOpsTotal_good hM syn e h with h | h | h | h
+      · exact .inr (.inr h)
+      · exact absurd h hne
+      · exact .inl h
+      · exact .inr (.inl h)
+  · exact .inl hv
 
 end Poetry.C19
